@@ -416,7 +416,7 @@ def plan_c13(tier, seed):
     if tier == "quick":
         shapes, sizes, max_dim, rank_stride, stride = [(), (2,), (2, 2)], [1, 2, 3], 6, 6, 6
     else:
-        shapes, sizes, max_dim, rank_stride, stride = [(), (1,), (2,), (3,), (2, 2)], [1, 2, 3], 7, 3, 8
+        shapes, sizes, max_dim, rank_stride, stride = [(), (1,), (2,), (3,), (2, 2)], [1, 2, 3], 7, 3, 10
     sigs = list(G.signatures(shapes, sizes, max_reals=3, max_ints=2, max_dim=max_dim))
     units = [("c13_sig", (sig, k + seed, int(rs.randint(1 << 30)), rank_stride, stride)) for k, sig in enumerate(sigs)]
     units.sort(key=lambda u: -(len(u[1][0]) * 10 + G.sig_dim(u[1][0])))  # heavy signatures first (load balance)
@@ -439,7 +439,7 @@ def plan_c14(tier, seed):
     if tier == "quick":
         shapes, sizes, max_dim, sig_stride, reps, delta_reps = [(), (2,), (2, 2)], [1, 2, 3], 6, 24, 2, 1
     else:
-        shapes, sizes, max_dim, sig_stride, reps, delta_reps = [(), (1,), (2,), (3,), (2, 2)], [1, 2, 3], 7, 20, 24, 8
+        shapes, sizes, max_dim, sig_stride, reps, delta_reps = [(), (1,), (2,), (3,), (2, 2)], [1, 2, 3], 7, 28, 24, 8
     sigs = list(G.signatures(shapes, sizes, max_reals=3, max_ints=2, max_dim=max_dim))
     picked = [s for k, s in enumerate(sigs) if (k + seed) % sig_stride == 0]
     for sig in picked:
